@@ -38,7 +38,7 @@ def register(w):
   }
   w.add_class(ClassInfo('partial', fields={}))
   w.add(Contract(
-      A + '_call_unconverted', mode='event', serves=['C13'], pure=PUREP,
+      A + '_call_unconverted', mode='event', serves=['C13', 'C01'], pure=PUREP,
       spec='''
 def spec(f, args, kwargs, options, update_cache=True):
   # the target is invoked exactly once with the caller's positional / keyword binding;
@@ -50,7 +50,7 @@ def spec(f, args, kwargs, options, update_cache=True):
   return f(*args)
 '''))
   w.add(Contract(
-      A + 'converted_call', mode='event', serves=['C13'], pure=PUREP,
+      A + 'converted_call', mode='event', serves=['C13', 'C01'], pure=PUREP,
       inline=[A + '_call_unconverted', A + '_fall_back_unconverted', A + 'is_autograph_artifact'],
       spec=CONVERTED_CALL_SPEC,
       assumes=['the policy predicates (allow-list cache, is_unsupported, is_allowlisted, isbuiltin, strict mode) are '
